@@ -39,6 +39,10 @@ fn schemas() -> Vec<(String, String, Ty)> {
     v.push(("n1".into(), "\"string | null\"".into(), Ty::Opt(Box::new(Ty::Str))));
     v.push(("n2".into(), "\"float | null\"".into(), Ty::Opt(Box::new(Ty::F64))));
     v.push(("n3".into(), "\"datetime | null\"".into(), Ty::Opt(Box::new(Ty::DateTime))));
+    // the union written null-first, and with odd spacing
+    v.push(("n4".into(), "\"null | int\"".into(), Ty::Opt(Box::new(Ty::I64))));
+    v.push(("n5".into(), "\"null | string\"".into(), Ty::Opt(Box::new(Ty::Str))));
+    v.push(("n6".into(), "\"float|null\"".into(), Ty::Opt(Box::new(Ty::F64))));
     v.push(("e0".into(), "[\"x\", \"y\"]".into(), Ty::Enum));
     v
 }
@@ -471,7 +475,7 @@ pub fn check(tier: &str) -> i32 {
         coverage: json!({
             "evaluations": stores,
             "distinct_nontrivial": stores - open,
-            "rule": format!("{} schemas {{id: int, f: T}} with T = each of the 19 documented primitive spellings, 4 nullable unions and an enum x 23 slot values (absent, null, booleans, integers at the i64/u64 boundaries, floats incl. 1.0 and 1e308, empty / plain / wrong-case / non-ASCII strings, array, object, ISO datetime, date, impossible date, numeric string) + 16 structural cases (extra / misspelled / missing keys, wrong type for a second field, non-object payloads, empty and blank context ids, undefined type, failed redefinition followed by old- and new-schema payloads) + 4 invalid DEFINEs; plus schemas with k typed fields (k in {:?}; types cycling over int, string|null, enum, float, bool, int|null) x every combination of per-slot choices (good value, value of the wrong kind, absent{}) with keys written in forward or reverse order, an undeclared key on top of all declared keys, and a misspelling of each declared key in its place; every STORE goes through parse + dispatch; afterwards QUERY and REPLAY must show exactly the accepted events, also after a clean restart, where the defined schema must still be the one in force (the refused redefinition's payload is still rejected); distinct_nontrivial = cases for which the statement fixes the expected answer", sch.len(), multi_ks, if tier == "quick" { "" } else { ", null" }),
+            "rule": format!("{} schemas {{id: int, f: T}} with T = each of the 19 documented primitive spellings, 7 nullable unions (also written null-first and without spaces) and an enum x 23 slot values (absent, null, booleans, integers at the i64/u64 boundaries, floats incl. 1.0 and 1e308, empty / plain / wrong-case / non-ASCII strings, array, object, ISO datetime, date, impossible date, numeric string) + 16 structural cases (extra / misspelled / missing keys, wrong type for a second field, non-object payloads, empty and blank context ids, undefined type, failed redefinition followed by old- and new-schema payloads) + 4 invalid DEFINEs; plus schemas with k typed fields (k in {:?}; types cycling over int, string|null, enum, float, bool, int|null) x every combination of per-slot choices (good value, value of the wrong kind, absent{}) with keys written in forward or reverse order, an undeclared key on top of all declared keys, and a misspelling of each declared key in its place; every STORE goes through parse + dispatch; afterwards QUERY and REPLAY must show exactly the accepted events, also after a clean restart, where the defined schema must still be the one in force (the refused redefinition's payload is still rejected); distinct_nontrivial = cases for which the statement fixes the expected answer", sch.len(), multi_ks, if tier == "quick" { "" } else { ", null" }),
             "samples": build_cases("t", &Ty::I64).iter().step_by(5).take(8).map(|c| json!({"cmd": c.cmd, "expected_accept": c.expect})).collect::<Vec<_>>(),
             "schemas": sch.len(),
             "layouts": layouts,
